@@ -30,3 +30,40 @@ func VerifHashBitsNext() {
 	verifrt.Assert(got >= 0 && got < 1<<uint(lg), "in-range")
 	verifrt.Reach("end")
 }
+
+// VerifHashBitsStep: inductive step from an arbitrary state (any consumed, any
+// width 1..63 — hostile shards may declare any power-of-two fanout): no panic,
+// error exactly when not enough bits remain, value = big-endian bit slice.
+func VerifHashBitsStep() {
+	var b [8]byte
+	for i := range b {
+		b[i] = verifrt.U8()
+	}
+	// widths and offsets are case-split (complete within the stated sets) so that
+	// every shift amount is a constant; the 64 hash bits stay symbolic
+	var i int
+	if verifrt.Param("allwidths", 0) == 1 {
+		i = 1 + verifrt.Choose(63)
+	} else {
+		ws := []int{1, 2, 3, 4, 5, 6, 7, 8, 9, 10, 11, 12, 16, 17, 32, 62, 63}
+		i = ws[verifrt.Choose(len(ws))]
+	}
+	consumed := verifrt.Choose(65)
+	hb := &hashBits{b: b[:], consumed: consumed}
+	var got int
+	var err error
+	panicked, _ := verifrt.Catch(func() { got, err = hb.Next(i) })
+	verifrt.Assert(!panicked, "no-panic")
+	if consumed+i > 64 {
+		verifrt.Reach("too-deep")
+		verifrt.Assert(err == ErrHAMTTooDeep, "too-deep-error")
+		verifrt.Assert(hb.consumed == consumed, "consumed-unchanged-on-error")
+		return
+	}
+	h := binary.BigEndian.Uint64(b[:])
+	want := int(h>>uint(64-consumed-i)) & (1<<uint(i) - 1)
+	verifrt.Assert(err == nil, "no-error")
+	verifrt.Assert(got == want, "next=spec")
+	verifrt.Assert(hb.consumed == consumed+i, "consumed-advances")
+	verifrt.Reach("end")
+}
